@@ -88,7 +88,7 @@ def oracle(rng, tier):
 
 def correspondence(tier, seed):
     import corr_numeric
-    budget = {'process': 16, 'solver': 16, 'membrane': 10}
+    budget = {'process': 16, 'solver': 16, 'membrane': 10, 'curvemetrics': 8}
     if tier == 'thorough':
         budget = {k: v * 12 for k, v in budget.items()}
     return corr_numeric.run(seed, budget, nmax=30 if tier == 'quick' else 200, tag='C08')
